@@ -93,7 +93,8 @@ Inductive smsg :=
 (* ghost events: what happened, for the history-level theorems *)
 Inductive gev :=
 | GRecorded (tid uid : Z) (u : utxr)
-| GPaid (tid uid : Z) (denom : bytes) (outs : list (Z * Z))   (* (recipient, amount) *)
+| GPaid (tid uid method : Z) (denom : bytes) (outs : list (Z * Z)) (created period : Z)
+    (* (recipient, amount) list; creation height of the record; payout period in force *)
 | GCancelled (tid uid : Z)
 | GDropped (tid uid : Z)
 | GFilled (tid uid : Z) (owner : Z)
@@ -384,7 +385,10 @@ Fixpoint pay_all (method tid : Z) (denom : bytes) (l : ledger) (faults : list bo
       end
   end.
 
-Definition mature (u : utxr) (period h : Z) : bool := u_created u + period <=? h.
+(* as coded (uint64): payoutBlock := created + period; skip if it wrapped around or is above the height *)
+Definition mature (u : utxr) (period h : Z) : bool :=
+  let pb := wrap64 (u_created u + period) in
+  negb ((pb <? u_created u) || (h <? pb)).
 
 (* settleUTXRs for one tenant over its pending records in id order *)
 Fixpoint settle_loop (t : tenant) (h : Z) (recs : list (Z * utxr)) (s : sstate) (faults : list bool)
@@ -411,7 +415,7 @@ Fixpoint settle_loop (t : tenant) (h : Z) (recs : list (Z * utxr)) (s : sstate) 
                 let s2 := set_utxrs s1 (utxr_del (s_utxrs s1) (t_id t) uid) in
                 let s3 := set_idx s2 (idx_del (s_idx s2) (t_id t) (u_req u)) in
                 let '(s4, f4, g4) := settle_loop t h recs' s3 faults' in
-                (s4, f4, GPaid (t_id t) uid (u_denom u) outs :: g4)
+                (s4, f4, GPaid (t_id t) uid (t_method t) (u_denom u) outs (u_created u) (t_period t) :: g4)
             end
         end
   end.
